@@ -390,3 +390,43 @@ def anorm(node: ast.AST | str, fn: ast.AST | None = None, rename: set[str] | Non
             return n
     tree = _R().visit(tree)
     return norm(tree)
+
+
+_LOG_OBJECTS = {"logger", "logging", "log", "_logger", "LOGGER"}
+_LOG_LEVELS = {"debug", "info", "warning", "warn", "error", "exception", "critical", "log"}
+
+
+def _pure_arg(e) -> bool:
+    """An argument whose evaluation has no effect: constants, names, attribute chains, subscripts of those, len/str/repr/type of those."""
+    if isinstance(e, (ast.Constant, ast.Name)):
+        return True
+    if isinstance(e, ast.Attribute):
+        return _pure_arg(e.value)
+    if isinstance(e, ast.Subscript):
+        return _pure_arg(e.value) and _pure_arg(e.slice)
+    if isinstance(e, ast.Call) and isinstance(e.func, ast.Name) and e.func.id in ("len", "str", "repr", "type") and not e.keywords:
+        return all(_pure_arg(a) for a in e.args)
+    if isinstance(e, (ast.Tuple, ast.List)):
+        return all(_pure_arg(x) for x in e.elts)
+    if isinstance(e, ast.JoinedStr):
+        return all(_pure_arg(v.value) if isinstance(v, ast.FormattedValue) else True for v in e.values)
+    return False
+
+
+def is_noise(st) -> bool:
+    """A statement that cannot change what a function computes: docstring / constant expression, `pass`, a logging call with effect-free arguments."""
+    if isinstance(st, ast.Pass):
+        return True
+    if isinstance(st, ast.Expr):
+        v = st.value
+        if isinstance(v, ast.Constant):
+            return True
+        if isinstance(v, ast.Call) and isinstance(v.func, ast.Attribute) and v.func.attr in _LOG_LEVELS and isinstance(v.func.value, ast.Name) and v.func.value.id in _LOG_OBJECTS:
+            return all(_pure_arg(a) for a in v.args) and all(_pure_arg(k.value) for k in v.keywords)
+    return False
+
+
+def effective_body(stmts):
+    """The statements of a body without noise (see is_noise); a body that is only noise keeps its last statement."""
+    out = [s for s in stmts if not is_noise(s)]
+    return out if out or not stmts else [stmts[-1]]
